@@ -249,11 +249,11 @@ func (k Keeper) StartDistributionProcess(ctx sdk.Context, states *[]types.State,
 	localRemains = states
 	defaultShare := coinsToDistributeDec
 	for _, share := range subDistributor.Destinations.Shares {
+		calculatedShare := calculatePercentage(share.Share, coinsToDistributeDec)
+		defaultShare = defaultShare.Sub(calculatedShare)
 		if share.Destination.Type == types.Main {
 			continue
 		}
-		calculatedShare := calculatePercentage(share.Share, coinsToDistributeDec)
-		defaultShare = defaultShare.Sub(calculatedShare)
 		if !calculatedShare.IsZero() {
 			findFunc := func() int {
 				return findAccountState(localRemains, &share.Destination)
